@@ -152,7 +152,35 @@ func (ex *Exec) binop(op token.Token, x, y Value, xt, yt types.Type) Value {
 						return Bool(sa >= sb)
 					}
 				}
-				panic(unsupported("symbolic string ordering"))
+				// lexicographic order of strings with concrete lengths and symbolic bytes
+				la, ok1 := a.Len.ConstVal()
+				lb, ok2 := b.Len.ConstVal()
+				if !ok1 || !ok2 || la > 1024 || lb > 1024 {
+					panic(unsupported("symbolic string ordering"))
+				}
+				var ba, bb []*Term
+				if la > 0 {
+					ba = ex.readBytes(a, int(la))
+				}
+				if lb > 0 {
+					bb = ex.readBytes(b, int(lb))
+				}
+				m := int(min(la, lb))
+				lt, eq := Bool(la < lb), Bool(la == lb) // when one is a prefix of the other
+				for i := m - 1; i >= 0; i-- {
+					lt = OrB(Ult(ba[i], bb[i]), AndB(Eq(ba[i], bb[i]), lt))
+					eq = AndB(Eq(ba[i], bb[i]), eq)
+				}
+				switch op {
+				case token.LSS:
+					return lt
+				case token.LEQ:
+					return OrB(lt, eq)
+				case token.GTR:
+					return Not(OrB(lt, eq))
+				default:
+					return Not(lt)
+				}
 			}
 		}
 	case *Opaque:
@@ -412,6 +440,27 @@ func (ex *Exec) load(p *Ptr, t types.Type) Value {
 		}
 		panic(unsupported(fmt.Sprintf("load of %s from byte memory", t)))
 	}
+	if v, ok := ex.tryGetAt(p.Obj.Val, p.Path); ok {
+		return copyValue(v)
+	}
+	// the path holds a symbolic index over elements that cannot be merged: fork on that index
+	for k, pe := range p.Path {
+		if pe.T == nil || pe.T.IsConst() {
+			continue
+		}
+		cells, isT := getAt(p.Obj.Val, p.Path[:k]).(TupleV)
+		if !isT || len(cells) > 64 {
+			break
+		}
+		conds := make([]*Term, len(cells))
+		for i := range cells {
+			conds[i] = Eq(pe.T, BV(64, uint64(i)))
+		}
+		i := ex.choose(conds)
+		np := append(append([]PathElem{}, p.Path[:k]...), PathElem{I: i})
+		np = append(np, p.Path[k+1:]...)
+		return ex.load(&Ptr{Obj: p.Obj, Path: np, Off: p.Off, View: p.View}, t)
+	}
 	return copyValue(getAt(p.Obj.Val, p.Path))
 }
 
@@ -574,7 +623,38 @@ func (ex *Exec) readElem(s *SliceV, i *Term) Value {
 	if s.Obj.IsBytes {
 		return s.Obj.Top.read(idx)
 	}
+	if !idx.IsConst() {
+		// elements that cannot be merged into one ite value (strings, slices, interfaces of different
+		// types): fork on the index instead
+		if v, ok := ex.tryGetAt(s.Obj.Val, pathAppend(s.Path, PathElem{T: idx})); ok {
+			return copyValue(v)
+		}
+		cells, isT := getAt(s.Obj.Val, s.Path).(TupleV)
+		if !isT || len(cells) > 64 {
+			panic(unsupported("symbolic index into non-scalar elements"))
+		}
+		conds := make([]*Term, len(cells))
+		for k := range cells {
+			conds[k] = Eq(idx, BV(64, uint64(k)))
+		}
+		k := ex.choose(conds)
+		return copyValue(cells[k])
+	}
 	return copyValue(getAt(s.Obj.Val, pathAppend(s.Path, PathElem{T: idx})))
+}
+
+// tryGetAt is getAt that reports failure instead of raising "unsupported" (merging non-scalars).
+func (ex *Exec) tryGetAt(v Value, path []PathElem) (out Value, ok bool) {
+	defer func() {
+		if r := recover(); r != nil {
+			if _, isU := r.(unsupportedErr); isU {
+				out, ok = nil, false
+				return
+			}
+			panic(r)
+		}
+	}()
+	return getAt(v, path), true
 }
 
 func (ex *Exec) writeElem(s *SliceV, i *Term, v Value) {
